@@ -27,6 +27,7 @@ fn main() {
         opts.pkg.offline = true;
         opts.pkg.terse = true;
         opts.release = release;
+        opts.tests = true; // library packages only have code in their #[test] entries
         let built = forc_pkg::build_with_options(&opts, None)?;
         let mut lines = vec![];
         let pkgs: Vec<std::sync::Arc<forc_pkg::BuiltPackage>> = match built {
